@@ -19,7 +19,7 @@ import (
 
 func TestMain(m *testing.M) {
 	document.SetGlobalLevel(document.LogLevelSilent)
-	kit.TestMain(m, 2500, 20000)
+	kit.TestMain(m, 1800, 15000)
 }
 
 // Op is one call of the history: the shared op data plus the style argument of the style-API ops.
@@ -39,7 +39,7 @@ type Case struct {
 
 var (
 	words     = []string{"alpha", "beta gamma", "x1", "中文标题", "é ñ", "a<b&c>d", "\"q\" 'v'", "Lorem ipsum", "42"}
-	freshIDs  = []string{"MyA", "MyB", "MyC", "Custom1", "自定义", "my-style_2", "S.3"}
+	freshIDs  = append([]string{"MyA", "MyB", "MyC", "Custom1", "自定义", "my-style_2", "S.3"}, oddIDs...)
 	overIDs   = []string{"Heading2", "Quote", "Normal", "Title", "Heading9"}
 	styleName = []string{"my style", "Caption X", "名称", "A&B <x>", "n1", "long name with words"}
 	bases     = []string{"", "", "Normal", "Heading1", "Quote", "nope"}
@@ -70,7 +70,7 @@ var weights = []struct {
 	{"toc", 1}, {"autotoc", 1}, {"updatetoc", 1},
 	{"listitem", 3}, {"bullet", 1}, {"numbered", 1},
 	{"footnote", 3}, {"endnote", 3}, {"fnrun", 2}, {"rej", 3}, {"header", 1}, {"footer", 1},
-	{"save", 5}, {"reopen", 5}, {"md", 2}, {"render", 3},
+	{"save", 5}, {"reopen", 5}, {"md", 2}, {"render", 3}, {"swap", 1},
 }
 
 var kindPool = func() []string {
@@ -95,10 +95,16 @@ func noteText(t *rapid.T) string {
 
 func genSpec(t *rapid.T, full bool) *StyleSpec {
 	s := &StyleSpec{Name: rapid.SampledFrom(styleName).Draw(t, "sname")}
-	if rapid.IntRange(0, 5).Draw(t, "over") == 0 {
+	if rapid.IntRange(0, 7).Draw(t, "oddname") == 0 {
+		s.Name = rapid.SampledFrom(oddNames).Draw(t, "oname")
+	}
+	switch rapid.IntRange(0, 6).Draw(t, "over") {
+	case 0:
 		s.ID = rapid.SampledFrom(overIDs).Draw(t, "oid")
-	} else {
-		s.ID = rapid.SampledFrom(freshIDs).Draw(t, "fid")
+	case 1:
+		s.ID = rapid.SampledFrom(oddIDs).Draw(t, "oddid")
+	default:
+		s.ID = rapid.SampledFrom(freshIDs[:len(freshIDs)-len(oddIDs)]).Draw(t, "fid")
 	}
 	s.Type = rapid.SampledFrom([]string{"paragraph", "paragraph", "paragraph", "character", "table"}).Draw(t, "stype")
 	s.BasedOn = rapid.SampledFrom(bases).Draw(t, "based")
@@ -108,7 +114,7 @@ func genSpec(t *rapid.T, full bool) *StyleSpec {
 	if full {
 		s.Bold = rapid.Bool().Draw(t, "sb")
 		s.Italic = rapid.Bool().Draw(t, "si")
-		s.SizePt = rapid.SampledFrom([]int{0, 9, 12, 28}).Draw(t, "spt")
+		s.SizePt = rapid.SampledFrom([]int{0, 9, 12, 28, 1, 100}).Draw(t, "spt")
 		s.Color = rapid.SampledFrom(colorsHex).Draw(t, "scol")
 		s.Font = rapid.SampledFrom(fontNames).Draw(t, "sfont")
 		s.Align = rapid.SampledFrom(aligns).Draw(t, "sal")
@@ -143,7 +149,8 @@ func genOpOf(t *rapid.T, k string) Op {
 		o.I = []int{sel(), rapid.IntRange(0, 5).Draw(t, "field")}
 		o.S = []string{rapid.SampledFrom(styleName).Draw(t, "nn"), rapid.SampledFrom([]string{"", "Normal", "Title"}).Draw(t, "nb"),
 			rapid.SampledFrom(colorsHex[1:]).Draw(t, "nc"), rapid.SampledFrom(aligns[1:]).Draw(t, "na")}
-		o.B = []bool{bl()}
+		// the second flag widens the candidates to every id the styles part of the opened document defines
+		o.B = []bool{bl(), rapid.IntRange(0, 2).Draw(t, "modwide") == 0}
 	case "st.remove":
 		o.I = []int{sel()}
 		// half of the removals name a predefined style (executed only while nothing uses it and nothing is based on it)
@@ -197,6 +204,9 @@ func genOpOf(t *rapid.T, k string) Op {
 		o.B = []bool{rapid.IntRange(0, 3).Draw(t, "viafile") == 0, bl()} // through a file, in a fresh process (registries reset)
 	case "render":
 		// the current document is loaded as the base document of a template and rendered: no arguments
+	case "swap":
+		// the other document object becomes the current one (the first swap creates it: new / opened from a save of this one)
+		o.B = []bool{bl()}
 	case "md":
 		n := rapid.IntRange(1, 6).Draw(t, "mdn")
 		var b strings.Builder
@@ -238,6 +248,15 @@ func genStart(t *rapid.T) *Start {
 	s := &Start{Scheme: rapid.SampledFrom([]string{"none", "zh", "wps"}).Draw(t, "scheme"), Strip: rapid.Bool().Draw(t, "strip"),
 		Custom: rapid.Bool().Draw(t, "custom"), Quote: rapid.Bool().Draw(t, "quote"),
 		Lists: rapid.IntRange(0, 4).Draw(t, "lists"), Footnotes: rapid.IntRange(0, 3).Draw(t, "fn"), Endnotes: rapid.IntRange(0, 3).Draw(t, "en")}
+	// now and then the package carries more than nine lists / notes (two-digit ids that the ids given later must not collide with)
+	many := func(l string, n *int) {
+		if rapid.IntRange(0, 9).Draw(t, "many"+l) == 0 {
+			*n = rapid.IntRange(9, 12).Draw(t, "n"+l)
+		}
+	}
+	many("lists", &s.Lists)
+	many("fn", &s.Footnotes)
+	many("en", &s.Endnotes)
 	// half of the packages from elsewhere bind the main namespace of their numbering/notes parts to something other than w
 	if rapid.Bool().Draw(t, "nsother") {
 		s.NS = rapid.SampledFrom(nsSchemes).Draw(t, "ns")
@@ -258,6 +277,20 @@ func genStart(t *rapid.T) *Start {
 		if rapid.Bool().Draw(t, "minstyles") {
 			s.NoStyles = rapid.SampledFrom(noStylesVariants).Draw(t, "nostyles")
 		}
+	}
+	// half of the packages that have a (non-empty) styles part bind the main namespace there to something other than w,
+	// a third lay the part out differently from the library (indented, with comments and a w:latentStyles block)
+	if (!s.Minimal && s.NoStyles == "") || s.NoStyles == "hollow" || s.NoStyles == "defaults" {
+		if rapid.Bool().Draw(t, "stylesnsother") {
+			s.StylesNS = rapid.SampledFrom(nsSchemes).Draw(t, "stylesns")
+		}
+		if rapid.IntRange(0, 2).Draw(t, "stylesformother") == 0 {
+			s.StylesForm = rapid.SampledFrom(stylesForms[1:]).Draw(t, "stylesform")
+		}
+	}
+	// a third of the packages bind the main namespace of the main part itself to something other than w
+	if rapid.IntRange(0, 2).Draw(t, "mainnsother") == 0 {
+		s.MainNS = rapid.SampledFrom(nsSchemes).Draw(t, "mainns")
 	}
 	return s
 }
@@ -359,7 +392,11 @@ func genCase(t *rapid.T) Case {
 	for i := 0; i < n; i++ {
 		c.Ops = append(c.Ops, genOpOf(t, rapid.SampledFrom(kindPool).Draw(t, "kind")))
 	}
-	switch rapid.IntRange(0, 7).Draw(t, "tail") {
+	switch rapid.IntRange(0, 8).Draw(t, "tail") {
+	case 6:
+		c.Ops = append(c.Ops, genBurst(t)...)
+	case 7:
+		c.Ops = append(c.Ops, genAlternate(t)...)
 	case 3, 4:
 		c.Ops = append(c.Ops, genOrder(t)...)
 	case 5:
@@ -401,7 +438,13 @@ type runner struct {
 	base      *document.Document
 	baseModel *model
 	baseWhere string
+	// the other document object of a history that uses two alternately (widen.go); other = the current one is the second
+	alt   *altDoc
+	other bool
+	swaps int
 }
+
+func tryCall(f func()) (interface{}, string) { return kit.Try(f) }
 
 var libTypes = map[string]style.StyleType{"paragraph": style.StyleTypeParagraph, "character": style.StyleTypeCharacter, "table": style.StyleTypeTable}
 
@@ -460,6 +503,11 @@ func (r *runner) judgeAs(m *model, b []byte, where string, current bool) *obs {
 		}
 		m.sinceSave = false
 		m.observedSave(o)
+		if m.opened {
+			for id := range o.Styles {
+				m.partStyles[id] = true
+			}
+		}
 		if m.rejectPending {
 			m.rejectPending, m.rejectJudged = false, true
 		}
@@ -638,6 +686,12 @@ func isTOCOp(k string) bool   { return k == "toc" || k == "autotoc" || k == "upd
 func (r *runner) step(i int, op Op) bool {
 	m, x, res := r.m, r.x, r.res
 	where := fmt.Sprintf("op %d %s", i, op.K)
+	if r.other {
+		where += " [second document]"
+	}
+	if op.K == "swap" {
+		return r.swap(len(op.B) > 0 && op.B[0], where)
+	}
 	sm := x.Doc.GetStyleManager()
 	try := func(f func()) bool {
 		if p, st := kit.Try(f); p != nil {
@@ -746,7 +800,7 @@ func (r *runner) step(i int, op Op) bool {
 		} else {
 			delete(m.base, s.ID)
 		}
-		r.styleLabel()
+		r.styleLabel(s.ID)
 		m.touched(s.ID)
 		res.Label("op:" + op.K)
 	case "st.mod":
@@ -766,6 +820,19 @@ func (r *runner) step(i int, op Op) bool {
 			}
 		}
 		sortStrings(cand)
+		if len(op.B) > 1 && op.B[1] && m.opened {
+			// every id the styles part of the opened document defines (a caller sees them in the file); whether the
+			// style manager knows the id is asked below
+			var more []string
+			for id := range m.partStyles {
+				if indexOf(cand, id) < 0 {
+					more = append(more, id)
+				}
+			}
+			sortStrings(more)
+			cand = append(cand, more...)
+			res.Label("mod:any-id-of-opened-part")
+		}
 		if len(cand) == 0 {
 			return true
 		}
@@ -839,7 +906,7 @@ func (r *runner) step(i int, op Op) bool {
 				m.base[id] = b
 			}
 		}
-		r.styleLabel()
+		r.styleLabel(id)
 		m.touched(id)
 		res.Label("op:st.mod")
 	case "st.remove":
@@ -1188,10 +1255,21 @@ func (r *runner) styledContent() {
 }
 
 // styleLabel labels a style-API op by the state of the document object it is applied to.
-func (r *runner) styleLabel() {
+func (r *runner) styleLabel(id string) {
 	switch {
 	case r.m.opened:
 		r.res.Label("style:on-opened")
+		if r.m.startStylesNS != "" {
+			r.res.Label("style:on-opened-styles-ns-" + r.m.startStylesNS)
+		}
+		// the styles part the document was opened with (or an earlier save of this object) already defines the id:
+		// the next save has to put the new definition in the place of that one
+		if r.m.partStyles[id] {
+			r.res.Label("style:redefines-definition-of-opened-part")
+			if r.m.startStylesNS != "" {
+				r.res.Label("style:redefines-definition-of-opened-part-ns")
+			}
+		}
 	case r.m.saved:
 		r.res.Label("style:after-save")
 	default:
@@ -1229,6 +1307,19 @@ func run(c Case) *kit.Result {
 		if c.Start.Minimal {
 			res.Label("start:minimal")
 		}
+		if c.Start.StylesNS != "" {
+			res.Label("start:styles-ns-" + c.Start.StylesNS)
+			r.m.startStylesNS = c.Start.StylesNS
+		}
+		if c.Start.Lists > 8 || c.Start.Footnotes > 8 || c.Start.Endnotes > 8 {
+			res.Label("start:more-than-nine-lists-or-notes")
+		}
+		if c.Start.MainNS != "" {
+			res.Label("start:main-ns-" + c.Start.MainNS)
+		}
+		if c.Start.StylesForm != "" {
+			res.Label("start:styles-form-" + c.Start.StylesForm)
+		}
 		if c.Start.Minimal || c.Start.NoStyles != "" {
 			res.Label("start:no-style-definitions")
 			if c.Start.NoStyles == "" {
@@ -1253,6 +1344,7 @@ func run(c Case) *kit.Result {
 			return res
 		}
 	}
+	labelCounts(res, c)
 	complete := true
 	for i, op := range c.Ops {
 		if !r.step(i, op) {
@@ -1263,33 +1355,59 @@ func run(c Case) *kit.Result {
 		shape = append(shape, op.K)
 	}
 	if complete {
-		r.save(false, "final save")
+		where := "final save"
+		if r.other {
+			where += " [second document]"
+		}
+		r.save(false, where)
 		r.judgeBase()
+		if r.alt != nil {
+			// the document object that is not the current one is as much a document of this history: its final package too
+			if r.swap(false, "end") {
+				where = "final save of the document that was not the current one"
+				if r.other {
+					where += " [second document]"
+				}
+				r.save(false, where)
+				res.Label("swap:both-judged")
+			}
+		}
 	}
-	m := r.m
-	if m.saves >= 2 {
+	ms := []*model{r.m}
+	if r.alt != nil {
+		ms = append(ms, r.alt.m)
+	}
+	var saves2, between, extOpen, extRender, rejJudged bool
+	for _, m := range ms {
+		saves2 = saves2 || m.saves >= 2
+		between = between || m.styleBetweenSaves
+		extOpen = extOpen || m.extendAfterOpen
+		extRender = extRender || m.extendAfterRender
+		rejJudged = rejJudged || m.rejectJudged
+	}
+	if saves2 {
 		res.Label("saves>=2")
 	}
-	if m.styleBetweenSaves {
+	if between {
 		res.Label("style/list/toc-op-between-saves")
 	}
-	if m.extendAfterOpen {
+	if extOpen {
 		res.Label("opened-then-extended")
 	}
-	if m.extendAfterRender {
+	if extRender {
 		res.Label("rendered-then-extended")
 	}
-	if m.rejectJudged {
+	if rejJudged {
 		res.Label("rejected-call-then-judged-save")
 	}
-	res.Nontrivial = m.styleBetweenSaves || m.extendAfterOpen || m.extendAfterRender || m.rejectJudged
+	res.Nontrivial = between || extOpen || extRender || rejJudged
 	return res
 }
 
 func TestC13(t *testing.T) {
 	kit.Main(t, kit.Spec[Case]{
 		ID: "C13", Level: "exploration",
-		Rule: "history of 1-18 (thorough 1-40) generated calls (+ a scenario tail in 3/4 of the cases: multi-step shapes; remove-then-emit; order-of-calls shape = a table of contents without level L is built [and saved], the unused TOC/heading style of level L removed, then a heading of level L and UpdateTOC/GenerateTOC/AutoGenerateTOC; rejected-call shape = notes with blank text, nil configs, unknown ids, out-of-range levels, then save/reopen/render and one more note) over the style API (CreateCustomStyle, AddStyle, in-place change, RemoveStyle of an unused custom or predefined style - also right before the heading/TOC call that would normally use it, CreateQuickStyle), styled content (headings 1-9, SetStyle with an id registered at that moment, quote/code via markdown, GenerateTOC/AutoGenerateTOC/UpdateTOC, ApplyTableStyle, CreateCustomTableStyle), list items, notes (AddFootnote/AddEndnote/AddFootnoteToRun; a third of the note texts empty or whitespace-only), calls with rejected/corrected arguments (RemoveFootnote/RemoveEndnote/RestartNumbering/RemoveStyle of unknown ids, AddListItem/GenerateTOC/AutoGenerateTOC/SetFootnoteConfig/CreateMultiLevelList with nil, CreateQuickStyle of an existing id, heading and SetTOCStyle levels outside 1-9, ApplyTableStyle/CreateCustomTableStyle without an id), saves (ToBytes/Save), reopen (same process / fresh process) and render (the current document is loaded as the base document of a template, LoadTemplateFromDocument + RenderTemplateToDocument with empty data, and the history goes on with the rendered copy); 1/4 of the cases start from a package with localised style ids, its own numbering and notes, half of these with numbering/notes parts that bind the main namespace to ns0: or make it the default namespace; two in five of the start packages lack optional parts: no word/styles.xml (or a zero-length one, or one without any w:style) while keeping their lists and notes, or the bare three-part package of a minimal producer. Every intermediate and the final package is judged on X1-X4; the base document of a render is saved once more when the history ends (or the next render replaces it) and that package is judged on X1-X3. Non-trivial = >=2 judged saves with a style/list/TOC op between them, or an opened package extended by a style-API or list op, or a rendered copy extended by a style-API, list or note op, or styled content added to a document opened from a package without style definitions, or a judged save after a rejected call / blank note text; distinct = distinct (start shape, op kind sequence)",
+		Rule: "history of 1-18 (thorough 1-40) generated calls (+ a scenario tail in 3/4 of the cases: multi-step shapes; remove-then-emit; order-of-calls shape = a table of contents without level L is built [and saved], the unused TOC/heading style of level L removed, then a heading of level L and UpdateTOC/GenerateTOC/AutoGenerateTOC; rejected-call shape = notes with blank text, nil configs, unknown ids, out-of-range levels, then save/reopen/render and one more note) over the style API (CreateCustomStyle, AddStyle, in-place change, RemoveStyle of an unused custom or predefined style - also right before the heading/TOC call that would normally use it, CreateQuickStyle), styled content (headings 1-9, SetStyle with an id registered at that moment, quote/code via markdown, GenerateTOC/AutoGenerateTOC/UpdateTOC, ApplyTableStyle, CreateCustomTableStyle), list items, notes (AddFootnote/AddEndnote/AddFootnoteToRun; a third of the note texts empty or whitespace-only), calls with rejected/corrected arguments (RemoveFootnote/RemoveEndnote/RestartNumbering/RemoveStyle of unknown ids, AddListItem/GenerateTOC/AutoGenerateTOC/SetFootnoteConfig/CreateMultiLevelList with nil, CreateQuickStyle of an existing id, heading and SetTOCStyle levels outside 1-9, ApplyTableStyle/CreateCustomTableStyle without an id), saves (ToBytes/Save), reopen (same process / fresh process) and render (the current document is loaded as the base document of a template, LoadTemplateFromDocument + RenderTemplateToDocument with empty data, and the history goes on with the rendered copy); 1/4 of the cases start from a package with localised style ids, its own numbering and notes, half of these with numbering/notes parts that bind the main namespace to ns0: or make it the default namespace; two in five of the start packages lack optional parts: no word/styles.xml (or a zero-length one, or one without any w:style) while keeping their lists and notes, or the bare three-part package of a minimal producer; half of the start packages that have a styles part (also a style-less one) bind the main namespace there to ns0: or make it the default namespace, a third lay the part out differently (indented; tabs + comments + w:latentStyles + single-quoted XML declaration); one in ten carries 9-12 lists / footnotes / endnotes. One history in nine ends with the many-of-one-kind shape (one note / list / heading / style-creating / table-style call repeated 9-12 times, rarely 16-18, 32-34 or 64-66 times, then save/reopen/render and the call once more), one in nine with the two-documents shape (swap: a second document object - new, or opened from a save of the current one - and the history goes back and forth between the two; both are saved and judged at the end); style ids also one past the heading range (Heading10), a case variant of a predefined id, ids with &, <, a blank, non-ASCII letters, 70 characters, and style names equal to predefined names; in-place changes on an opened document pick, a third of the time, any id its styles part defines. Every intermediate and the final package is judged on X1-X4; the base document of a render is saved once more when the history ends (or the next render replaces it) and that package is judged on X1-X3. Non-trivial = >=2 judged saves with a style/list/TOC op between them, or an opened package extended by a style-API or list op, or a rendered copy extended by a style-API, list or note op, or styled content added to a document opened from a package without style definitions, or a judged save after a rejected call / blank note text; distinct = distinct (start shape, op kind sequence)",
 		Gen:  genCase, Run: run, Findings: findings,
 		Assumptions: []string{
 			"ids are resolved by the harness's own zip/OPC reader and canonical XML trees; the styles/numbering/notes parts are located through the main part's relationships, else by content type, else by their conventional names (where a relationship is missing or misplaced is C02's clause, except the numbering relationship which X2 names)",
@@ -1300,7 +1418,8 @@ func TestC13(t *testing.T) {
 			"a style counts as unused (removable) when no part of the most recent judged save of the document object refers to it (the harness's own reading of that package; before the first save: the package it was opened from), no op since then gave it or may have given it to a body element (heading op: its HeadingN; any TOC op: all TOC ids and Heading1; markdown conversion: heading/quote/code ids) and no known style is based on it",
 			"X4 expectations are dropped when the document object is replaced (reopen, markdown conversion, template render) and when a style is removed: the statement promises presence in the next save only",
 			"template rendering is used as one more way (besides Open) in which a document object with its own list/note/style definitions comes into being; it is rendered with empty template data and the generated texts contain no template syntax, so the rendered copy must resolve every id exactly as its base does",
-			"namespace bindings of the parts of a start package are rewritten by the harness (same infoset); ids are resolved by expanded names (namespace URI + local name), never by prefix"},
+			"namespace bindings of the parts of a start package are rewritten by the harness (same infoset; the styles part loses the root's mc:Ignorable attribute, whose prefixes it no longer declares, and in one layout gains comments and a w:latentStyles block); ids are resolved by expanded names (namespace URI + local name), never by prefix - a definition written with a prefix that is not bound to the WordprocessingML namespace defines nothing",
+			"with two document objects in one history every op goes to the current one and each object has its own bookkeeping (registered ids, expectations, what it was opened from); both objects' packages are judged with their own bookkeeping"},
 		MustSee: map[string]float64{"saves>=2": 0.5, "style/list/toc-op-between-saves": 0.3, "opened-then-extended": 0.15, "start:foreign": 0.15,
 			"style:early": 0.2, "style:after-save": 0.08, "style:on-opened": 0.15, "remove:heading-style": 0.05, "heading:after-its-style-removed": 0.03, "toc:after-removed-toc-style": 0.01, "op:pstyle": 0.2, "pstyle:api-style": 0.05, "heading:9": 0.05, "op:autotoc": 0.05, "op:toc": 0.05,
 			"op:tblstyle-template": 0.05, "op:tblcustom": 0.03, "op:list": 0.2, "op:note": 0.3, "list:after-open-with-lists": 0.03,
@@ -1309,6 +1428,10 @@ func TestC13(t *testing.T) {
 			"list:after-open-ns-ns0": 0.004, "note:after-open-ns-ns0": 0.004, "reopen:fresh-process": 0.15, "reopen:same-process": 0.15, "op:md": 0.05, "op:st.mod": 0.1,
 			"note:blank-text": 0.1, "op:fnrun": 0.05, "op:rej": 0.08, "rej:error-result": 0.04, "rejected-call-then-judged-save": 0.15,
 			"start:no-style-definitions": 0.06, "start:minimal": 0.03, "start:styles-absent": 0.02, "start:styles-empty": 0.01, "start:styles-hollow": 0.01,
-			"nostyles:styled-content": 0.05, "remove:toc-style": 0.05, "remove:toc-style-unused-by-existing-toc": 0.03, "updatetoc:after-removed-toc-style": 0.03},
+			"nostyles:styled-content": 0.05, "remove:toc-style": 0.05, "remove:toc-style-unused-by-existing-toc": 0.03, "updatetoc:after-removed-toc-style": 0.03,
+			"start:styles-ns-ns0": 0.012, "start:styles-ns-default": 0.012, "start:styles-ns-default-ns1": 0.012, "start:styles-form-pretty": 0.012, "start:styles-form-dressed": 0.012,
+			"start:main-ns-ns0": 0.012, "style:redefines-definition-of-opened-part": 0.04, "style:redefines-definition-of-opened-part-ns": 0.005,
+			"op:swap": 0.1, "swap:back-and-forth": 0.05, "swap:second-new": 0.05, "swap:second-opened-from-save": 0.05,
+			"many:more-than-9-of-a-kind": 0.04, "many:more-than-16-of-a-kind": 0.01, "many:more-than-64-of-a-kind": 0.001, "start:more-than-nine-lists-or-notes": 0.02},
 	})
 }
